@@ -14,7 +14,7 @@ C09, the quantifier "for all schemas the crate can TRACE": every schema the trac
                                domain
   C09_from_samples_json_roundtrip
   C09_unseen_position_outside_pinned
-                               the defect repaired by repo fix 01bb847 (finding C09-traced-unseen-null): before it, under
+                               the defect repaired by repo fix 5168cf7 (finding C09-traced-unseen-null): before it, under
                                `allow_null_fields`, a position no sample reached (the element of a list that was always empty)
                                was traced as a NON-nullable `Null` field; `from_value` of the written form makes it nullable
                                (`into_field`: `Null` ⇒ nullable), so that traced schema did not survive the JSON form
@@ -47,7 +47,7 @@ theorem C09_from_type_json_roundtrip (esc : Char → Bool) (c : Code) (o : Optio
   C09_schema_roundtrip esc fields (C09_from_type_in_domain c o how ty fields h)
 
 /-- **C09, traced schemas (`from_samples`).**  Every field of every schema `from_samples` returns lies in `SchemaOK`
-(every option, `allow_null_fields` included: since repo fix 01bb847 every `Null` field is emitted nullable, see
+(every option, `allow_null_fields` included: since repo fix 5168cf7 every `Null` field is emitted nullable, see
 `C09_unseen_position_outside_pinned`). -/
 theorem C09_from_samples_in_domain (o : Options) (how : OverwritesInDomain o)
     (xs : List SVal) (fields : List Field) (h : fromSamples .fixed o xs = .ok fields) : ∀ f ∈ fields, SchemaOK f := by
@@ -65,7 +65,7 @@ theorem C09_from_samples_json_roundtrip (esc : Char → Bool) (o : Options) (how
 /-- the samples `[{a: []}]` -/
 def wEmptyList : List SVal := [.record "R" (.cons "a" 0 (.seq .nil) .nil)]
 
-/-- **The pinned defect (C09-traced-unseen-null, repaired by 01bb847).**  Before the repair, under `allow_null_fields`, the
+/-- **The pinned defect (C09-traced-unseen-null, repaired by 5168cf7).**  Before the repair, under `allow_null_fields`, the
 samples `[{a: []}]` traced `a` as `LargeList(element: Null, NOT nullable)` (the element position was never reached:
 `UnknownTracer::to_field` kept its unset nullable flag, whereas a `Null` that WAS seen is always emitted nullable).  That
 schema is valid but outside `SchemaOK`, and its JSON form is read back — without an error — with `element` nullable. -/
